@@ -17,7 +17,8 @@ from sim.core.gateway import make_environ, call_app
 from sim.core.seams import Seams, SimClock, TimeProxy, make_datetime_proxy
 
 PATTERNS = ['/a', '/<x>', '/b/', '/a/<y>', '/<p+>', '/c/<n:int>']
-PATHS = ['/a', '/b', '/b/', '/a/z', '/q', '/q/r/s', '/', '/c/7', '/c/x', '/a/', '//a']
+PATHS = ['/a', '/b', '/b/', '/a/z', '/q', '/q/r/s', '/', '/c/7', '/c/x', '/a/', '//a',
+         '/m1/a', '/m2/a', '/m2/a', '/m1/q', '/m2/q', '/m1/b/', '/m2/b/', '/m2/a/z', '/m1/c/7', '/m2/c/7', '/m2', '/m1/']
 OUTCOMES = {'ok': '200', 'red': '302', 'r404': '404', 'x409': '409', 'nb403': '403', 'nbret404': '404',
             'boom': "'ValueError'", 'boom2': "'KeyError'", 'ise': '500', 'x423': '423', 'r451': '451', 'x599': '599',
             # HTTPExceptions of the underlying library (werkzeug.exceptions): they have a code, too
@@ -83,6 +84,10 @@ def segs(path):
 
 def match(pattern, path):
     s = segs(path)
+    for mp in ('/m1', '/m2'):
+        if pattern.startswith(mp + '/') or pattern == mp:
+            # a route of the application that is mounted under this prefix
+            return bool(s) and s[0] == mp[1:] and path.startswith(mp) and match(pattern[len(mp):] or '/', path[len(mp):] or '/')
     if pattern == '/a':
         return s == ['a']
     if pattern == '/<x>':
@@ -188,7 +193,7 @@ class C19(Check):
     level_text = ('Seeded search over request/read/reset/resize histories against a model counter and over '
                   'reservoir operation histories under adversarial random draws; unbounded history space, sampled.')
     level_note = 'Trusted: the sequential dispatch model used to predict which routes a request reaches.'
-    required_probes = ('reservoir-with-repeated-values-shrunk', 'two-stats-applications', 'request-inside-except-block', 'reservoir-overflow', 'reservoir-grow-after-overflow', 'fallthrough-counted', 'reset-read',
+    required_probes = ('reader-changed-its-copy', 'one-application-mounted-under-two-prefixes', 'reservoir-with-repeated-values-shrunk', 'two-stats-applications', 'request-inside-except-block', 'reservoir-overflow', 'reservoir-grow-after-overflow', 'fallthrough-counted', 'reset-read',
                        'negative-duration', 'null-route-405')
 
     # ---- generation --------------------------------------------------------
@@ -202,6 +207,11 @@ class C19(Check):
         c.shuffle(pats)
         table = [[p, c.choice([None, None, ['GET'], ['POST'], ['get', 'put']]), c.choice(sorted(OUTCOMES) + ['var'] * 6)]
                  for p in pats[:c.randint(1, 5)]]
+        if c.random() < 0.3:
+            mp = [q for q in PATTERNS if q not in ('/<p+>',)]
+            c.shuffle(mp)
+            sub = [[q, c.choice([None, None, ['GET']]), c.choice(sorted(OUTCOMES) + ['var'] * 4)] for q in mp[:c.randint(1, 2)]]
+            table = table + [['/m1' + q, mm, o] for q, mm, o in sub] + [['/m2' + q, mm, o] for q, mm, o in sub]
         second = None
         if c.random() < 0.35:
             # a second application with its own StatsMiddleware lives in the same process
@@ -256,8 +266,11 @@ class C19(Check):
                         j = erng.randint(0, n_added + 1)
                         draws.append(min(1.0 - 2 ** -53, max(0.0, j / float(n_added + 1) + erng.choice([-1e-12, 0.0, 1e-12]))))
                 ops.append({'add': draws})
-            elif r < 0.85:
+            elif r < 0.8:
                 ops.append({'resize': rng.choice([1, 2, cap, cap + 1, 2 * cap, max(1, cap // 2), 64, 3])})
+            elif r < 0.88:
+                # a reader takes the values as a list and works on ITS list (sorts it, trims it, pads it)
+                ops.append({'tolist': rng.choice(['append', 'clear', 'sort-reverse', 'extend', 'pop'])})
             else:
                 ops.append({'iter': 1})
         # what is added: all different (sequence numbers), or measurements that REPEAT (durations rounded to a few values)
@@ -298,6 +311,21 @@ class C19(Check):
                             added.append(v)
                             r.add(v)
                         last = 'add-after-grow' if grown_after_overflow else 'add'
+                    elif 'tolist' in op:
+                        lst = r.to_list()     # (what the reader does to ITS list is judged by the invariants below)
+                        how = op['tolist']
+                        if how == 'append':
+                            lst.append('never-added')
+                        elif how == 'clear':
+                            del lst[:]
+                        elif how == 'sort-reverse':
+                            lst.sort(key=repr, reverse=True)
+                        elif how == 'extend':
+                            lst.extend(['pad'] * 20)
+                        elif how == 'pop' and lst:
+                            lst.pop()
+                        last = 'tolist'
+                        res.probe('reader-changed-its-copy')
                     elif 'resize' in op:
                         if op['resize'] > cap and n > cap:
                             grown_after_overflow = True
@@ -317,7 +345,7 @@ class C19(Check):
                     contents = list(r)
                 except Exception as e:
                     res.violate(K + 'raises:%s@%s' % (type(e).__name__, 'add-after-grow' if grown_after_overflow and 'add' in op else
-                                                      ('add' if 'add' in op else 'resize' if 'resize' in op else 'iter')),
+                                                      ('add' if 'add' in op else 'resize' if 'resize' in op else 'tolist' if 'tolist' in op else 'iter')),
                                 'step %d %s: %r (cap %r, %d added)' % (step, canon(op)[:80], e, cap, n), step)
                     return res
                 if n > cap:
@@ -364,7 +392,13 @@ class C19(Check):
             apps, mws, models = [], [], []
             for tb in tables:
                 m = cstats.StatsMiddleware()
-                rts = [('/_st/', cstats.create_stats_app())] + [Route(p, make_ep(o), methods=mm) for p, mm, o in tb]
+                rts = [('/_st/', cstats.create_stats_app())] + [Route(p, make_ep(o), methods=mm) for p, mm, o in tb if not p.startswith(('/m1', '/m2'))]
+                mounted = [(p, mm, o) for p, mm, o in tb if p.startswith('/m1')]
+                if mounted:
+                    # ONE application, mounted under two prefixes of this one
+                    shared_app = Application([Route(p[3:] or '/', make_ep(o), methods=mm) for p, mm, o in mounted])
+                    rts += [('/m1', shared_app), ('/m2', shared_app)]
+                    res.probe('one-application-mounted-under-two-prefixes')
                 apps.append(Application(rts, middlewares=[m]))
                 mws.append(m)
                 models.append({})
